@@ -191,6 +191,8 @@ def run_bc(code, solve_for, l, R, rhob):
         env = _FreeEnv({'solve_for': solve_for, 'bc_pointer': Ptr(bc, 0), 'degree_l_dbl': Fr(l), 'radius_planet_to_use': wrap(R), 'bulk_density_to_use': wrap(rhob), 'max_num_solutions': 5,
                         'num_ytypes': 1, 'len': len, 'planet_bulk_density': Q.sym('planet_bulk_density_DIMENSIONAL'), 'radius_planet': Q.sym('radius_planet_DIMENSIONAL')})
         env.update(loader.base_ns())
+        from symx import pyx2py as _p2
+        env.update({k_: v_ for k_, v_ in _p2.RUNTIME.items() if k_.startswith('_')})      # helpers the transliteration itself introduces (_cint, _cstr, _memview_cast)
         try:
             exec(code, {}, env)
             return bc.data, env.get('solve_for'), env.get('num_ytypes')
